@@ -46,7 +46,7 @@ from bv.refs.routeref import NodeRef, RouteRef, net_key
 
 PROPERTY = "C19"
 LEVEL = "model_checking"
-BUDGET = {"quick": 95.0, "thorough": 1200.0}
+BUDGET = {"quick": 150.0, "thorough": 1500.0}
 RULE = ("part A: BFS over all histories of the alphabet {learn(port, router, dnets), forget router(port, router), "
         "forget destinations(port, dnets), forget(router, dnets) in its general form -- every router of the universe, with or "
         "without a record, with every non-empty subset of the dnets it is credited with and with every destination list of the "
